@@ -1,7 +1,7 @@
 //@ item: integer/src/gcd/mod.rs :: memory_requirement_exact
 pub fn memory_requirement_exact(lhs_len: usize, rhs_len: usize) -> Layout
 /*@
-    requires lhs_len >= rhs_len && rhs_len >= 2, rhs_len <= usize::MAX / 8,
+    requires rhs_len <= usize::MAX / 4,
     ensures lay_ok(ret, gneed(rhs_len as int / 2)), lay_wordish(ret),
 @*/
 {
